@@ -27,7 +27,17 @@ import (
 
 type Rand struct{ s uint64 }
 
-func NewRand(seed uint64) *Rand { return &Rand{s: seed*0x9E3779B97F4A7C15 + 0x1234567} }
+// NewRand scrambles the seed through the splitmix64 finaliser (twice, with a constant in between) so that
+// consecutive seeds give unrelated streams (seed*G + c alone makes seed n+1 the stream of seed n shifted by one).
+func NewRand(seed uint64) *Rand {
+	z := seed + 0x1234567
+	for i := 0; i < 2; i++ {
+		z = (z ^ (z >> 30)) * 0xBF58476D1CE4E5B9
+		z = (z ^ (z >> 27)) * 0x94D049BB133111EB
+		z = (z ^ (z >> 31)) + 0x9E3779B97F4A7C15
+	}
+	return &Rand{s: z}
+}
 
 func (r *Rand) U64() uint64 {
 	r.s += 0x9E3779B97F4A7C15
